@@ -649,7 +649,7 @@ class Tr:
             if set(given) != set(params):
                 raise Unsupported("recursive call arguments")
             return ind + self.spec["recursive"][2] + (" " + self.spec["thread"] if self.spec.get("thread") else "") + " " + " ".join(self.e(given[p_]) for p_ in params)
-        if self.spec.get("stop_src") and any(x in ast.unparse(s) for x in ([self.spec["stop_src"][0]] if isinstance(self.spec["stop_src"][0], str) else self.spec["stop_src"][0])):
+        if self.spec.get("stop_src") and any(self._evaluates(s, x) for x in ([self.spec["stop_src"][0]] if isinstance(self.spec["stop_src"][0], str) else self.spec["stop_src"][0])):
             return ind + self.ret(ast.parse(self.spec["stop_src"][1], mode="eval").body)
         stop = self.spec.get("stop_at")
         if stop and isinstance(s, stop[0]):
